@@ -243,11 +243,7 @@ package msgpipeline
 
 // ---- C04: block selection ----
 // A table is a function of (table, key) (assumption A-iface: lookups are pure for the duration of a message).
-//@ uninterp func tblOK(t module.Table, key string) bool
-//@ uninterp func tblErr(t module.Table, key string) error
-//@ extern func (module.Table).Lookup(t module.Table, ctx context.Context, s string) (val string, ok bool, err error)
-//@   ensures ok == tblOK(t, s) && err == tblErr(t, s)
-//@ pure func tblHit(t module.Table, key string) bool = tblErr(t, key) == nil && tblOK(t, key)
+// (tblOK / tblErr / tblHit and the contract of Table.Lookup are declared with the interface in framework/module)
 // The destination block for a recipient: the block of the FIRST destination_in table (declaration order) that has
 // the lookup key; else the block declared for the full key; else the block declared for the key's domain; else the
 // default block. An address without a lookup key, or a key that does not split, is refused.
